@@ -52,6 +52,7 @@ type Model struct {
 	Comments map[string]int    `json:"comments,omitempty"` // BUILD/helper file -> number of comment lines at the top
 	Blanks   map[string]int    `json:"blanks,omitempty"`   // BUILD/helper file -> number of blank lines between statements
 	FlagArg  string            `json:"flagarg,omitempty"`  // value passed as --<pkg>.mode=<value> ("" = not passed)
+	Gated    bool              `json:"gated,omitempty"`    // BUILD files call vf.gate/vf.done so that the harness can impose a package load order
 	Ignore   []string          `json:"ignore,omitempty"`
 }
 
@@ -254,6 +255,9 @@ func (m *Model) Render() map[string]string {
 		f := m.buildFile(p)
 		var b strings.Builder
 		b.WriteString(head(f))
+		if m.Gated {
+			fmt.Fprintf(&b, "vf.gate(%s)\n", quote(m.Pkgs[p]))
+		}
 		// loads
 		used := map[int]bool{}
 		flag := false
@@ -274,6 +278,9 @@ func (m *Model) Render() map[string]string {
 		if !any && p != 0 {
 			// a package without targets still has a BUILD file (so that it exists as a package)
 			b.WriteString("UNUSED = 1\n")
+			if m.Gated {
+				fmt.Fprintf(&b, "vf.done(%s)\n", quote(m.Pkgs[p]))
+			}
 			out[f] = b.String()
 			continue
 		}
@@ -295,6 +302,9 @@ func (m *Model) Render() map[string]string {
 			}
 			b.WriteString(m.renderTarget(t))
 			b.WriteString(sep(f))
+		}
+		if m.Gated {
+			fmt.Fprintf(&b, "vf.done(%s)\n", quote(m.Pkgs[p]))
 		}
 		out[f] = b.String()
 	}
